@@ -108,7 +108,9 @@ class TimeTicks(Integer):
         value: Union[timedelta, int, _SENTINEL_UNINITIALISED] = UNINITIALISED,
     ) -> None:
         if isinstance(value, timedelta):
-            value = int(value.total_seconds() * 100)
+            # integer arithmetic: total_seconds() * 100 is an inexact float
+            # and truncating it loses a tick (f.ex. 0.29s -> 28)
+            value = value // timedelta(milliseconds=10)
         super().__init__(value)
 
     def pythonize(self) -> Optional[timedelta]:  # type: ignore
